@@ -363,7 +363,7 @@ func (e *Engine) call(fr *frame, st *State, c *ast.CallExpr, k func(st *State, r
 				}
 			}
 		}
-		if fs := e.specOf(fn); fs != nil && fr.ver != nil && fr.ver.modular && !returnsIterator(fn) {
+		if fs := e.specOf(fn); fs != nil && fr.ver != nil && fr.ver.modular && !returnsIterator(fn) && !fs.Inline {
 			// (a function handing out a storage iterator is a thin wrapper around storage.Find: callers inline it, its
 			// own contract states which snapshot the iterator walks)
 			if !fr.ver.explicitFaults || fs.Nofault {
@@ -1217,6 +1217,14 @@ func (e *Engine) loopCore(fr *frame, st *State, label string, node ast.Node, ext
 		ls = &spec.LoopSpec{Ord: ord} // sweep mode: frame-only havoc, no invariant
 	}
 	base := fr.pkg.Types.Name() + "." + specKey(fr.fn)
+	if fr.parent != nil {
+		// a loop of an inlined callee: its invariants are obligations of the function being verified
+		top := fr
+		for top.parent != nil {
+			top = top.parent
+		}
+		base = top.pkg.Types.Name() + "." + specKey(top.fn) + ">" + specKey(fr.fn)
+	}
 	// which iterator does the guard advance?
 	var itObj types.Object
 	ast.Inspect(node, func(n ast.Node) bool {
